@@ -12,8 +12,9 @@ RULE = ("every operator result on general-position operands of all kinds and on 
         "shape of every kind (identity with the singletons); float operands with a crossing within an ulp of an existing "
         "vertex (well-formedness incl. no segment shorter than 1e-9, region away from the boundaries); non-trivial = operands cross or are composite; distinct = SHA-1")
 PROOF_STATUS = ("Props/C06.v: results of all five operators are shape_wf with closed boundaries (all inputs), complement kind "
-                "table, regrouping keeps the curves, singleton rows; disjointness of components / no self-crossing / "
-                "singleton laws for general S: oracle only (partial)")
+                "table, regrouping keeps the curves, singleton rows; no zero-length piece after any split, in any re-split operand, "
+                "in any complement, and in | / & results whose pieces exceed the 1e-9 point tolerance (refuted below it, replayed); "
+                "disjointness of components / no self-crossing / singleton laws for general S: oracle only (partial)")
 
 
 def cases(ctx):
